@@ -264,7 +264,12 @@ def main():
         "engines": [{"name": "tlc", "path": "/opt/veriftools/tla/tla2tools.jar",
                      "serves_properties": [c["property_id"] for c in checks],
                      "kind_free_text": "TLA+ specifications under /verif/spec checked with TLC 1.8 (exhaustive BFS, state-graph "
-                                       "dumps replayed into the code, ndjson trace validation, exact re-computation of recorded calls)"}],
+                                       "dumps replayed into the code, ndjson trace validation, exact re-computation of recorded calls)"},
+                    {"name": "apalache", "path": "/opt/veriftools/apalache/bin/apalache-mc",
+                     "serves_properties": ["C02", "C11", "C16"],
+                     "kind_free_text": "inductive invariants of history-free formulations of TLA+ modules (EarlyStoppingInd, SolverStateInd, "
+                                       "TensorOffsetInd): Init => IndInv, IndInv /\\ Next => IndInv', IndInv => Safety over unbounded integers; a tool "
+                                       "error is only recorded, the TLC runs decide the bounded model either way"}],
         "checks": checks,
         "not_applicable": na,
         "notes": "bin/check <ID> --tier quick|thorough [--replay PATH]; known_findings.json lists repaired (fixed:) and open findings.",
